@@ -53,6 +53,10 @@ def run_space(exe, space, tier, out, solution=None, env=None, deadline=None):
     if r.returncode != 0 or not os.path.exists(out):
         sys.stderr.write("E2 explorer failed rc=%d (space %s %s)\n%s\n" % (r.returncode, space, solution or "", r.stdout[-3000:]))
         raise SystemExit(2)
+    return parse_out(out, space, solution)
+
+
+def parse_out(out, space, solution):
     ops, prefix, viols, trans, evals, hist, summary, harness = {}, [], [], [], [], {}, None, []
     for line in open(out, errors="replace"):
         f = line.rstrip("\n").split("\t")
